@@ -655,4 +655,26 @@ class DictIterModel(Model):
         return pull
 
 
-ALL = ALL + [DictIterModel]
+JDUMP = z3.Function("JDUMP", U, U)
+
+
+class JsonModel(Model):
+    """json.dumps(x, sort_keys=True): the canonical JSON text of the value
+    of x (a function of the value; injective on JSON values: A-JSON)."""
+
+    def call_dotted(self, st, d, node):
+        eng = self.eng
+        if d == "json.dumps":
+            v = eng.eval(st, node.args[0])
+            for kw in node.keywords:
+                eng.eval(st, kw.value)
+            if isinstance(v, VRef) and v.cls == "DictObj":
+                val = eng.load_field(st, v, "value")
+                return VU(JDUMP(val.t))
+            if isinstance(v, VU):
+                return VU(JDUMP(v.t))
+            raise self.E.Unsupported("json.dumps of this value")
+        return NotImplemented
+
+
+ALL = ALL + [DictIterModel, JsonModel]
